@@ -60,6 +60,9 @@ pub enum OpKind {
     Rewrite { hay: u32, text: String },
     /// compile the spec afresh on this thread (hook armed) and run one find
     Compile { re: u32, hay: u32 },
+    /// drive the iterator through one of std's Iterator methods instead of next():
+    /// kind 0 = count (consumes), 1 = last (consumes), 2 = nth(k), 3 = size_hint
+    Adaptor { h: u32, kind: u32, k: u32 },
     /// replace_all_with whose closure panics on its k-th call (panic in user code: unwinds
     /// out of the library between two matches, dropping the live iterator)
     ReplacePanic { re: ReRef, hay: u32, k: u32 },
@@ -294,6 +297,7 @@ pub fn op_to_json(op: &Op) -> J {
             .set("inner", reref_to_json(inner)),
         OpKind::Rewrite { hay, text } => J::obj().set("op", J::s("rewrite")).set("hay", J::u(*hay as u64)).set("text", J::s(text)),
         OpKind::Compile { re, hay } => J::obj().set("op", J::s("compile")).set("re", J::u(*re as u64)).set("hay", J::u(*hay as u64)),
+        OpKind::Adaptor { h, kind, k } => J::obj().set("op", J::s(["count", "last", "nth", "size_hint"][(*kind % 4) as usize])).set("h", J::u(*h as u64)).set("k", J::u(*k as u64)),
         OpKind::ReplacePanic { re, hay, k } => J::obj().set("op", J::s("replace_panic")).set("re", reref_to_json(re)).set("hay", J::u(*hay as u64)).set("k", J::u(*k as u64)),
         OpKind::Burst { re, hay, n } => J::obj().set("op", J::s("burst")).set("re", reref_to_json(re)).set("hay", J::u(*hay as u64)).set("n", J::u(*n as u64)),
     };
@@ -334,6 +338,7 @@ pub fn op_from_json(j: &J) -> Result<Op, String> {
         },
         "rewrite" => OpKind::Rewrite { hay: u("hay")?, text: j.get("text").and_then(|v| v.as_str()).ok_or("text")?.to_string() },
         "compile" => OpKind::Compile { re: u("re")?, hay: u("hay")? },
+        "count" | "last" | "nth" | "size_hint" => OpKind::Adaptor { h: u("h")?, kind: ["count", "last", "nth", "size_hint"].iter().position(|x| *x == name).unwrap() as u32, k: u("k").unwrap_or(0) },
         "replace_panic" => OpKind::ReplacePanic { re: reref_from_json(j.get("re").ok_or("re")?)?, hay: u("hay")?, k: u("k")? },
         "burst" => OpKind::Burst { re: reref_from_json(j.get("re").ok_or("re")?)?, hay: u("hay")?, n: u("n")? },
         _ => return Err(format!("unknown op {}", name)),
